@@ -189,9 +189,19 @@ def subs_plans(draw, symbols):
         else:
             first.append([s, draw(st.sampled_from(["z + 1", "2*z", "z*z"]))])
     env = {s: draw(st.sampled_from(VALUES))
-           for s in ["x", "y", "z", "u", "v"]}
+           for s in ["x", "y", "z", "u", "v", "w"]}
     return {"first": first, "env": env,
-            "as_list": draw(st.booleans())}
+            "as_list": draw(st.booleans()),
+            "order": draw(st.permutations(list(range(6)))),
+            "extra": draw(st.booleans())}
+
+
+def lambdify_order(symbols, plan):
+    """ The symbols handed to lambdify: those of the diagram, possibly one
+    that does not occur, in an order drawn with the case (not sorted). """
+    xs = sorted(symbols) + (["w"] if plan.get("extra") else [])
+    keys = plan.get("order") or list(range(6))
+    return [x for _, x in sorted(zip(keys, xs))]
 
 
 @st.composite
@@ -302,7 +312,7 @@ def check_diagram(spec, plan, evaluate, reference, labels):
     same(to_complex(e2.array, {}), ref, "eval-then-subs",
          "{} with {}".format(common.show(d), plan))
     # lambdify = subs
-    xs = sorted(symbols)
+    xs = lambdify_order(symbols, plan)
     if xs:
         vals = [plan["env"][x] for x in xs]
         lam = d.lambdify(*[sym(x) for x in xs])(*vals)
@@ -471,7 +481,7 @@ def check_zx(case):
     ref = qsem.zx_eval(subst_spec(spec, env_after_first(plan)))
     got = qsem.zx_eval(zx_spec_of(d2))
     same(got, ref, "zx-subs", "{} with {}".format(common.show(d), plan))
-    xs = sorted(symbols)
+    xs = lambdify_order(symbols, plan)
     if xs:
         vals = [plan["env"][x] for x in xs]
         lam = d.lambdify(*[sym(x) for x in xs])(*vals)
